@@ -203,6 +203,30 @@ func VerifC05Generated(from, to int) {
 	verifrt.Assert((err1 == nil) == (err2 == nil) && sql1 == sql2, "repeating the translation gives the same outcome")
 }
 
+// VerifC05References: adjacent MATCH clauses whose predicates refer to variables bound
+// before them, by them, after them (forward references) or by each other: clause i binds
+// one of a, b, c and compares one of its properties with a property of any of the three.
+// Whatever the reference structure, translation returns - SQL or an error, no panic, no
+// hang - leaves the model alone and gives the same outcome again.
+func VerifC05References(clauses int) {
+	names := []string{"a", "b", "c"}
+	text := ""
+	for i := 0; i < clauses; i++ {
+		other := names[verifrt.NondetChoice("variable referenced by clause", len(names))]
+		text += "match (" + names[i] + ":User) where " + names[i] + ".name = " + other + ".owner "
+	}
+	text += "return a"
+	q1, err := verifNativeParse(text, nil)
+	verifrt.Assert(err == nil && q1 != nil, "the reference template parses")
+	q2, _ := verifNativeParse(text, nil)
+	sql1, _, err1 := verifTranslate(q1, verifC05Params())
+	verifrt.Observe(text, err1 == nil)
+	verifrt.Assert(err1 != nil || len(sql1) > 0, "translation returns SQL or an error")
+	verifrt.Assert(verifrt.DeepEqual(q1, q2), "translation leaves the caller's query model unchanged")
+	sql2, _, err2 := verifTranslate(q1, verifC05Params())
+	verifrt.Assert((err1 == nil) == (err2 == nil) && sql1 == sql2, "repeating the translation gives the same outcome")
+}
+
 // VerifC05SharedMapper: translations that share one kind mapper do not influence each other:
 // after a translation that fails (unknown kind, unsupported shape) or succeeds, every later
 // translation through the same mapper gives the SQL it gives through a fresh mapper - and
